@@ -1,6 +1,91 @@
+import Model.LRU
+import Model.Prepare
 import Driver.Util
 namespace Driver.C14
-/-- placeholder: replaced when the property's model is built -/
-def step (_ : Unit) (_ : List String) : Unit × String := ((), "unimplemented")
-def init : Unit := ()
+open Util
+
+/-- driver state: a plain LRU (string values) and the prepared-cache protocol state -/
+structure St where
+  lru  : LRU.Cache String String
+  prep : Prepare.State String
+
+def init : St := { lru := LRU.new 0, prep := Prepare.init 0 }
+
+def showEv (l : List (String × String)) : String :=
+  if l.isEmpty then "-" else ",".intercalate (l.map fun e => e.1 ++ ":" ++ e.2)
+
+def showEvN (l : List (String × Nat)) : String := showEv (l.map fun e => (e.1, toString e.2))
+
+def evOf : Prepare.Event String → Option (String × Nat)
+  | .evicted k f => some (k, f)
+  | .failRemoved k f => some (k, f)
+  | .unprepRemoved k f => some (k, f)
+  | _ => none
+
+def newEv (s s' : Prepare.State String) : String :=
+  showEvN ((s'.log.drop s.log.length).filterMap evOf)
+
+def key (h ks st : String) : String := String.ofList (Prepare.keyFor h.toList ks.toList st.toList)
+
+def unq (s : String) : String := if s == "-" then "" else s
+
+/-- expected facts about conn.go prepareStatement (checked on the AST by the harness) -/
+def astExpect : String :=
+  "closure-adds=1 defer-close-first=true err-assign=4 removes=3 remove-by-key=true waits-done=true waits-ctx=true unprepared-evicts-then-retries=true"
+
+def step (s : St) (ws : List String) : St × String :=
+  match ws with
+  | ["reset", "lru", cap] => ({ s with lru := LRU.new (cap.toInt?.getD 0) }, "ok")
+  | ["reset", "plru", cap] => ({ s with prep := Prepare.init (cap.toInt?.getD 0) }, "ok")
+  | ["add", k, v] =>
+    let r := s.lru.add k v
+    ({ s with lru := r.1 }, s!"ev={showEv r.2} len={r.1.len}")
+  | ["get", k] =>
+    let r := s.lru.get k
+    ({ s with lru := r.2 }, match r.1 with | some v => "hit:" ++ v | none => "miss")
+  | ["remove", k] =>
+    let r := s.lru.remove k
+    ({ s with lru := r.2.1 }, s!"{r.1} ev={showEv r.2.2} len={r.2.1.len}")
+  | ["oldest"] =>
+    let r := s.lru.removeOldest
+    ({ s with lru := r.1 }, s!"ev={showEv r.2} len={r.1.len}")
+  | ["drain"] =>
+    ({ s with lru := { s.lru with items := [] } }, "ev=" ++ showEv s.lru.items.reverse)
+  | ["lookup", h, ks, st] =>
+    let k := key (unq h) (unq ks) (unq st)
+    let hit := s.prep.cache.find k
+    match Prepare.step s.prep (.lookup k) with
+    | none => (s, "rejected")
+    | some p' =>
+      let f := match hit with | some f => f | none => s.prep.flights.length
+      ({ s with prep := p' }, s!"{if hit.isSome then "hit" else "miss"} f={f} ev={newEv s.prep p'} len={p'.cache.len}")
+  | ["complete", f, r, id] =>
+    match f.toNat?, parseHex id with
+    | some f, some idb =>
+      match Prepare.step s.prep (.complete f (if r == "ok" then some idb else none)) with
+      | none => (s, "rejected")
+      | some p' => ({ s with prep := p' }, s!"done ev={newEv s.prep p'} len={p'.cache.len}")
+    | _, _ => (s, "bad-op")
+  | ["outcome", f] =>
+    match f.toNat? with
+    | some f => (s, match Prepare.outcome s.prep f with
+        | some .inflight => "inflight" | some .failed => "failed"
+        | some (.ok id) => "ok:" ++ toHex id | none => "none")
+    | none => (s, "bad-op")
+  | ["unprep", h, ks, st, id] =>
+    match parseHex id with
+    | some idb =>
+      let k := key (unq h) (unq ks) (unq st)
+      match Prepare.step s.prep (.unprepared k idb) with
+      | none => (s, "rejected")
+      | some p' =>
+        if p'.crashed then (s, "crash:nil prepared statement")
+        else ({ s with prep := p' }, s!"ev={newEv s.prep p'} len={p'.cache.len}")
+    | none => (s, "bad-op")
+  | ["pdrain"] =>
+    let p := s.prep
+    ({ s with prep := { p with cache := { p.cache with items := [] } } }, "ev=" ++ showEvN p.cache.items.reverse)
+  | ["ast", "prepareStatement"] => (s, astExpect)
+  | _ => (s, "bad-op")
+
 end Driver.C14
